@@ -7,6 +7,7 @@ site refers to — and a rule that goes by the name takes it for the original (s
 listed and were reviewed; a new one is reported for review under every property, because any rule may be the one that is fooled."""
 import collections
 from engine.mir import CalleeView
+from engine import names as _names
 
 # last segment -> functions of this crate that carry it today (hand-written ones; impls of std traits are boilerplate and skipped)
 REVIEWED_LOCAL = {
@@ -17,7 +18,7 @@ REVIEWED_LOCAL = {
     "read": {"linux::mem_reader::MemReader::read", "linux::module_reader::ProcessMemory::read"},
 }
 # names of crate functions that are also names of foreign functions the crate calls (reviewed: the rules use full paths for these)
-REVIEWED_FOREIGN = {"alloc", "new", "parse", "position", "ptrace", "read", "with_capacity", "write_all", "write", "read_from_module", "create"}
+REVIEWED_FOREIGN = _names.REVIEWED_FOREIGN     # one list: the loader (engine/names.py) leaves exactly these unrenamed
 # families that are one-per-module by design (each section has its `write`, each type its `new`): membership is free, the rules address
 # them by module path
 FREE_FAMILIES = {"write", "new", "read_from_module", "create"}
@@ -39,7 +40,7 @@ def rule_names_unambiguous(ctx, P):
     local = collections.defaultdict(set)
     for b in prog.bodies:
         if _handwritten(b):
-            local[b.short.split("::")[-1]].add(b.short)
+            local[_names.unmangle_seg(b.short.split("::")[-1])].add(b.short)
     foreign = set()
     for b in prog.bodies:
         for x, t in b.calls():
@@ -48,6 +49,17 @@ def rule_names_unambiguous(ctx, P):
                 s = CalleeView(c).short
                 if s:
                     foreign.add(s.split("::")[-1])
+    # ... and the foreign functions the REVIEWED tree calls (tables/foreign_names.json): a local function that captures every call of a
+    # foreign one removes the foreign name from today's program
+    import json, os
+    tp = os.path.join(os.path.dirname(os.path.dirname(os.path.abspath(__file__))), "tables", "foreign_names.json")
+    try:
+        frozen = set(json.load(open(tp))["names"])
+    except Exception:
+        frozen = None
+    ctx.check(frozen is not None and len(frozen) >= 200, R, "foreign-table", None, "the frozen list of foreign callee names is present (%d names)" % len(frozen or ()),
+              "tables/foreign_names.json is missing or short: collisions with captured foreign functions cannot be seen", nontrivial=False, unproven=True)
+    foreign |= frozen or set()
     new_ll = []
     for n, members in sorted(local.items()):
         if len(members) < 2 or n in FREE_FAMILIES:
